@@ -22,7 +22,17 @@ PI32 = float(np.float32(np.pi))      # the largest value a float32 result "in [-
 # ------------------------------------------------------------------------------------------------
 # trajectories
 # ------------------------------------------------------------------------------------------------
+_TOP_CACHE = {}
+
+
 def point_topology(n):
+    """Topology of n single-atom residues (cached per n: the geometry functions under test only read it)."""
+    if n not in _TOP_CACHE:
+        _TOP_CACHE[n] = _point_topology(n)
+    return _TOP_CACHE[n]
+
+
+def _point_topology(n):
     import mdtraj as md
     top = md.Topology()
     ch = top.add_chain()
@@ -52,7 +62,20 @@ def make_traj(xyz32, vectors=None, lengths=None, angles=None, top=None):
 # ------------------------------------------------------------------------------------------------
 # minimum image with proven search range
 # ------------------------------------------------------------------------------------------------
+_RB_CACHE = {}
+
+
 def reduce_basis(V):
+    key = np.asarray(V, np.float64).tobytes()
+    if key not in _RB_CACHE:
+        if len(_RB_CACHE) > 4096:
+            _RB_CACHE.clear()
+        _RB_CACHE[key] = _reduce_basis(V)
+    B, T = _RB_CACHE[key]
+    return B.copy(), T.copy()
+
+
+def _reduce_basis(V):
     """Greedy pairwise (Lagrange/LLL-like) reduction.  Returns (B, T) with B = T @ V, T integer, |det T| = 1.
     B spans the same lattice as V; only used to make the bounded image search sufficient."""
     V = np.asarray(V, np.float64)
